@@ -30,6 +30,7 @@ type cTable struct {
 	rows   int
 	auto   int // next AUTO_INCREMENT value; 0 = the table has no such column
 	moved  bool // a column was inserted before others or dropped (positions shifted)
+	nopk   bool // created without a primary key
 }
 
 type cIdx struct {
@@ -51,7 +52,7 @@ type cCatalog struct {
 func (c *cCatalog) clone() *cCatalog {
 	n := &cCatalog{tables: map[string]*cTable{}, views: map[string]string{}, trigs: map[string]*cTrig{}, procs: map[string]string{}}
 	for k, t := range c.tables {
-		nt := &cTable{rows: t.rows, auto: t.auto, moved: t.moved, cols: append([]string(nil), t.cols...), idx: map[string]*cIdx{}, fks: map[string]*cFK{}, checks: map[string]bool{}}
+		nt := &cTable{rows: t.rows, auto: t.auto, moved: t.moved, nopk: t.nopk, cols: append([]string(nil), t.cols...), idx: map[string]*cIdx{}, fks: map[string]*cFK{}, checks: map[string]bool{}}
 		for a, b := range t.idx {
 			x := *b
 			nt.idx[a] = &x
@@ -138,10 +139,12 @@ func (c *cCatalog) probes() []cProbe {
 			cols = append(cols, fmt.Sprintf("(%s,%s,%d)", qs(tn), qs(col), i+1))
 			showCols = append(showCols, "("+qs(col)+")")
 		}
-		stats = append(stats, fmt.Sprintf("(%s,'PRIMARY','id',0)", qs(tn)))
-		showIdx = append(showIdx, "('PRIMARY','id')")
-		tcons = append(tcons, fmt.Sprintf("(%s,'PRIMARY','PRIMARY KEY')", qs(tn)))
-		kcu = append(kcu, fmt.Sprintf("('PRIMARY',%s,'id',NULL)", qs(tn)))
+		if !c.tables[tn].nopk {
+			stats = append(stats, fmt.Sprintf("(%s,'PRIMARY','id',0)", qs(tn)))
+			showIdx = append(showIdx, "('PRIMARY','id')")
+			tcons = append(tcons, fmt.Sprintf("(%s,'PRIMARY','PRIMARY KEY')", qs(tn)))
+			kcu = append(kcu, fmt.Sprintf("('PRIMARY',%s,'id',NULL)", qs(tn)))
+		}
 		for _, in := range sortedKeys(t.idx) {
 			ix := t.idx[in]
 			nu := 1
@@ -278,7 +281,14 @@ func checkC43(env *kernel.Env) {
 				t := &cTable{cols: []string{"id", "a", "b"}, idx: map[string]*cIdx{}, fks: map[string]*cFK{}, checks: map[string]bool{}}
 				defs := []string{"id INT PRIMARY KEY", "a INT", "b VARCHAR(10)"}
 				topt := ""
-				if T.Bool(1, 3) {
+				if T.Bool(1, 5) {
+					// no primary key, two NOT NULL unique columns: the first is shown as the key
+					u1, u2 := fresh("ua"), fresh("ub") // (names in column order: see the known finding show-columns-key-by-index-name)
+					defs = []string{"id INT NOT NULL", "a INT NOT NULL", "b VARCHAR(10)", fmt.Sprintf("UNIQUE KEY %s (id)", u1), fmt.Sprintf("UNIQUE KEY %s (a)", u2)}
+					t.idx = map[string]*cIdx{u1: {"id", true}, u2: {"a", true}}
+					t.nopk = true
+					t.checks = map[string]bool{}
+				} else if T.Bool(1, 3) {
 					defs[0] = "id INT PRIMARY KEY AUTO_INCREMENT"
 					t.auto = 1
 					if T.Bool(1, 2) {
@@ -423,6 +433,14 @@ func checkC43(env *kernel.Env) {
 				}
 				col := []string{"a", "b"}[T.Draw(2)]
 				unique := T.Bool(1, 3)
+				if unique && cat.tables[tn].nopk {
+					// known finding (show-columns-key-by-index-name): a unique index named ix..
+					// sorts before the table's uk.. indexes
+					if env.Avoid("show-columns-key-by-index-name") {
+						continue
+					}
+					env.ClassPrefix = "unique-index-order/"
+				}
 				u := ""
 				if unique {
 					u = "UNIQUE "
@@ -462,8 +480,8 @@ func checkC43(env *kernel.Env) {
 					continue
 				}
 				tn, pn := pickKey(tabs), pickKey(tabs)
-				if tn == pn {
-					continue
+				if tn == pn || cat.tables[pn].nopk {
+					continue // (a parent without primary key is referenced through a unique index the model does not track as used)
 				}
 				hasIdx := false
 				for _, ix := range cat.tables[tn].idx {
@@ -473,6 +491,9 @@ func checkC43(env *kernel.Env) {
 				}
 				if !hasIdx || cat.tables[tn].rows > 0 {
 					continue // (rows of the child would have to match parent rows)
+				}
+				if cat.tables[tn].moved || (cat.tables[pn].moved && len(cat.tables[pn].idx) > 0) {
+					continue // (indexes after columns changed position: C21's known finding)
 				}
 				fn := fresh("fk")
 				return &op{"add-foreign-key", fmt.Sprintf("ALTER TABLE %s ADD CONSTRAINT %s FOREIGN KEY (a) REFERENCES %s (id)", tn, fn, pn), func(c *cCatalog) bool {
@@ -639,6 +660,26 @@ func checkC43(env *kernel.Env) {
 						}
 					}
 					env.Fail("catalog-reflected", "differs:"+kind, "step %d after %q: %s reads %s\n  got:  %s\n  want: %s", step, after, s.Name, p.q, got, want)
+					return false
+				}
+			}
+			// the two readers of a table's column list agree on every column's key marker
+			for _, tn := range sortedKeys(cat.tables) {
+				sc := s.Exec("SHOW COLUMNS FROM " + tn)
+				ic := s.Exec(fmt.Sprintf("SELECT column_name, column_key FROM information_schema.columns WHERE table_schema = 'd' AND table_name = '%s' ORDER BY ordinal_position", tn))
+				if sc.Err != nil || ic.Err != nil {
+					env.Fail("catalog-readable", "catalog-read-failed:columns", "step %d after %q: SHOW COLUMNS FROM %s / information_schema.columns failed: %v %v", step, after, tn, sc.Err, ic.Err)
+					return false
+				}
+				var a, b []string
+				for _, r := range sc.Rows {
+					a = append(a, fmt.Sprintf("%v:%v", r[0], r[3]))
+				}
+				for _, r := range ic.Rows {
+					b = append(b, fmt.Sprintf("%v:%v", r[0], r[1]))
+				}
+				if strings.Join(a, " ") != strings.Join(b, " ") {
+					env.Fail("catalog-reflected", "differs:column-key", "step %d after %q: %s: SHOW COLUMNS FROM %s gives [%s], information_schema.columns gives [%s]", step, after, s.Name, tn, strings.Join(a, " "), strings.Join(b, " "))
 					return false
 				}
 			}
